@@ -36,7 +36,7 @@ pub fn take_monitor_errors() -> Vec<String> {
     MONITOR_ERRORS.with(|l| std::mem::take(&mut *l.borrow_mut()))
 }
 
-pub const SEMS: [Sem; 11] = [
+pub const SEMS: [Sem; 12] = [
     Sem::Ident,
     Sem::Len,
     Sem::Upper,
@@ -48,6 +48,7 @@ pub const SEMS: [Sem; 11] = [
     Sem::Glue,
     Sem::Boom,
     Sem::Lift,
+    Sem::Pick,
 ];
 pub const ALIASES_PER_SEM: u32 = 16;
 
